@@ -1,42 +1,22 @@
 ---------------------------- MODULE MC_LinAdjust ----------------------------
-(* Exhaustive configurations of LinAdjust.tla.  The adjustment is equivariant *)
-(* under a permutation of the rows, so the data are enumerated as multisets   *)
-(* of rows (sequences that are non-decreasing in the lexicographic order).    *)
+(* Exhaustive configurations of LinAdjust.tla (constants a cfg file cannot express). *)
 EXTENDS LinAdjust
 
-CONSTANTS MinN, MaxN,   \* numbers of rows
-          SVals,        \* values of a summary (may contain NAN, PINF, NINF)
-          ThVals,       \* values of a parameter
-          ObsSet        \* observed summary vectors
+CONSTANTS SVals,        \* values of a summary (may contain NAN, PINF, NINF)
+          ThVals        \* values of a parameter
 
-RowTypes == {s \o t : s \in [1..K -> SVals], t \in [1..NP -> ThVals]}
+MCRowTypes == {s \o t : s \in [1..K -> SVals], t \in [1..NP -> ThVals]}
 
-RECURSIVE LexLeq(_, _)
-LexLeq(a, b) == IF a = <<>> THEN TRUE
-                ELSE IF Head(a) < Head(b) THEN TRUE
-                ELSE IF Head(a) > Head(b) THEN FALSE
-                ELSE LexLeq(Tail(a), Tail(b))
+MCObs == IF K = 1 THEN {<<1>>} ELSE {<<1, 0>>, <<1, 1>>}
 
-RECURSIVE NonDec(_, _)
-NonDec(n, from) == IF n = 0 THEN {<<>>}
-                   ELSE UNION {{<<r>> \o t : t \in NonDec(n - 1, {x \in from : LexLeq(r, x)})} : r \in from}
-
-MCData == {[S |-> [i \in 1..Len(r) |-> SubSeq(r[i], 1, K)],
-            obs |-> o,
-            TH |-> [j \in 1..NP |-> [i \in 1..Len(r) |-> r[i][K + j]]]]
-           : r \in UNION {NonDec(n, RowTypes) : n \in MinN..MaxN}, o \in ObsSet}
-
-MCObs1 == {<<1>>}
-MCObs2 == {<<1, 0>>, <<1, 1>>}
-MCObs == IF K = 1 THEN MCObs1 ELSE MCObs2
-
-\* integer maps with determinant -1, 1, 2, -2
-MCMaps == IF K = 1 THEN {<< <<-1>> >>, << <<2>> >>, << <<-2>> >>}
-          ELSE {<< <<0, 1>>, <<1, 0>> >>, << <<1, 1>>, <<0, 1>> >>, << <<1, 1>>, <<-1, 1>> >>,
-                << <<2, 0>>, <<1, -1>> >>}
-MCShifts == IF K = 1 THEN {<<0>>, <<3>>} ELSE {<<0, 0>>, <<1, -2>>}
+\* integer maps with determinant -1, 1, 2, -2 (and translations)
+MCAffs == IF K = 1 THEN {<< << <<-1>> >>, <<0>> >>, << << <<2>> >>, <<3>> >>, << << <<-2>> >>, <<-1>> >>}
+          ELSE {<< << <<0, 1>>, <<1, 0>> >>, <<0, 0>> >>,
+                << << <<1, 1>>, <<0, 1>> >>, <<1, -2>> >>,
+                << << <<1, 1>>, <<-1, 1>> >>, <<0, 0>> >>,
+                << << <<2, 0>>, <<1, -1>> >>, <<0, 3>> >>}
 \* negative control: a singular map loses information, the result must change for some data
-MCMapsSingular == IF K = 1 THEN {<< <<0>> >>} ELSE {<< <<1, 1>>, <<1, 1>> >>}
+MCAffsSingular == IF K = 1 THEN {<< << <<0>> >>, <<0>> >>} ELSE {<< << <<1, 1>>, <<1, 1>> >>, <<0, 0>> >>}
 
-MCGrid == [1..K -> -2..2]
+MCGrid == [1..K -> -1..1]
 =============================================================================
